@@ -50,6 +50,12 @@ impl RxCtrState {
         }
     }
 
+    /// Verification hook: `(max_ctr, ctr_bitmap, synced)`.
+    #[cfg(feature = "verif")]
+    pub fn verif_parts(&self) -> (u32, u16, bool) {
+        (self.max_ctr, self.ctr_bitmap, self.synced)
+    }
+
     fn contains(&self, bit_number: u32) -> bool {
         (self.ctr_bitmap & (1 << bit_number)) != 0
     }
